@@ -28,6 +28,8 @@ import (
 // real driver API (lungo.Open on a MemoryStore) against the stateful sequential model
 // (lean/Driver/OpsApi.lean). This file: the call representation, its request encoding, the
 // execution on the real side with canonical replies, and the canonical dump of engine.Catalog().
+// Monitors: api_run.go (runner) and api_index.go (C15 index coherence, C07 would-be collections);
+// generators: api_gen.go and api_gen_idx.go (index scenarios).
 
 // apiBulk is one write model of a BulkWrite call.
 type apiBulk struct {
